@@ -91,7 +91,7 @@ pub fn run(reg: &dyn Registry, ctx: &Ctx) -> Outcome {
                 }
             }
             // long runs: counters
-            let blocks = if thorough { 100_000 } else { 10_000 };
+            let blocks = if thorough { 1 << 22 } else { 1 << 18 };
             let words = info.block_words.unwrap_or(100) * blocks;
             let mut g = makers[1].make();
             let r = guarded(|| {
@@ -117,6 +117,25 @@ pub fn run(reg: &dyn Registry, ctx: &Ctx) -> Outcome {
                 ctx.violation(&format!("C14:{}:long-run", info.name), &format!("{}: panicked during a run of {} blocks / {} words: {:?}", info.name, blocks, words, o), json!({"kind":"long-run","type":info.name,"ctor":makers[1].describe(),"words":words}));
             }
             if info.has_jump {
+                // value-directed states: those whose jump()/long_jump() image is special (zero word, ...)
+                for (_, opname, sb) in super::c18aux::for_type(*ty, ctx.seed) {
+                    let op = if opname == "jump" { Op::Jump } else { Op::LongJump };
+                    let r = guarded(|| {
+                        let mut g = ty.from_seed(&sb);
+                        let o = apply(&mut g, &op);
+                        let o2 = apply(&mut g, &Op::U64);
+                        (o, o2)
+                    });
+                    ctx.add("transitions", 2);
+                    ctx.add("jump_special_states", 1);
+                    let bad = match &r {
+                        Ok((a, b)) => a.is_panic() || b.is_panic(),
+                        Err(_) => true,
+                    };
+                    if bad {
+                        ctx.violation(&format!("C14:{}:jump", info.name), &format!("{}: {} from state {} (whose image has a special word pattern) panicked: {:?}", info.name, opname, hex(&sb), r), json!({"kind":"history","type":info.name,"ctor":{"from_seed":hex(&sb)},"ops":ops_json(&[op.clone(), Op::U64])}));
+                    }
+                }
                 let mut g = makers[1].make();
                 for _ in 0..64 {
                     for op in [Op::Jump, Op::LongJump, Op::U64] {
@@ -235,6 +254,20 @@ pub fn run(reg: &dyn Registry, ctx: &Ctx) -> Outcome {
             }
         }
     }
+    // long runs of consecutive stuck measurements (any retry bound, narrow retry counter or the
+    // memory-access noise buffer's byte counters): k = 2^j-1, 2^j, 2^j+1 up to 8193 (quick) / 65537
+    {
+        let lens = jitter_env::run_lengths(if thorough { 65536 } else { 8192 });
+        let maxk = *lens.last().unwrap();
+        let base = jitter_env::raw_readings(ctx.seed ^ 0x14AA, 3 * jitter_env::readings_per_word(3) + 3 * maxk + 200);
+        let jobs: Vec<(u8, usize, crate::jitter_env::Dev)> = [1u8, 3].iter().flat_map(|&r| lens.iter().flat_map(move |&k| [crate::jitter_env::Dev::Repeat3, crate::jitter_env::Dev::SameDelta, crate::jitter_env::Dev::Arith].into_iter().map(move |d| (r, k, d)))).collect();
+        jobs.par_iter().for_each(|&(rounds, k, kind)| {
+            let per = jitter_env::readings_per_word(rounds);
+            let rd = jitter_env::with_stuck_run(&base[..(3 * per + 3 * k + 150).min(base.len())], per + 5, k, kind);
+            jit_run(rd, &[Op::SetRounds(rounds), Op::U32, Op::U64, Op::U32], &format!("{} consecutive stuck measurements ({:?}) in the second collection, rounds {}", k, kind, rounds), "stuck-run");
+        });
+        ctx.set("longest_stuck_run", maxk as u64);
+    }
     // bursts of three consecutive probe deltas
     let menu: Vec<i64> = vec![0, 1, -1, 1 << 30, -(1 << 30), -(1 << 30) + 1, (1 << 30) + (1 << 29), -((1 << 30) + (1 << 29)), (1i64 << 31) - 1, -(1i64 << 31), (1i64 << 31) + 5, (1i64 << 32) - 1];
     let mut bursts: Vec<(i64, i64, i64)> = Vec::new();
@@ -286,7 +319,7 @@ pub fn run(reg: &dyn Registry, ctx: &Ctx) -> Outcome {
             traces: "jitter_executions",
             evaluations: "states",
             distinct: "states",
-            rule: "every history up to the stated depth from every start offset for 20 generator types + 3 cores; every fill_bytes length 0..=130, around 1..3 blocks and 255..65537; 10^4 (quick) / 10^5 (thorough) block runs; every constructor on the seed alphabets, 2^17 (2^20) consecutive + dense u64 arguments, zero-block and failing sources; JitterRng: one deviation of 13 kinds at every reading position, all 12^3 bursts of three consecutive probe deltas (incl. +-2^30, +-(2^30+2^29), 2^31-1, -2^31, 2^32-1) at every measurement of a collection (rounds 1..3) and at 7 probe positions of test_timer, and all C13 scripts; oracle: no panic".into(),
+            rule: "every history up to the stated depth from every start offset for 20 generator types + 3 cores; every fill_bytes length 0..=130, around 1..3 blocks and 255..65537; 2^18 (quick) / 2^22 (thorough) block runs; every constructor on the seed alphabets, 2^17 (2^20) consecutive + dense u64 arguments, zero-block and failing sources; JitterRng: one deviation of 13 kinds at every reading position, all 12^3 bursts of three consecutive probe deltas (incl. +-2^30, +-(2^30+2^29), 2^31-1, -2^31, 2^32-1) at every measurement of a collection (rounds 1..3) and at 7 probe positions of test_timer, and all C13 scripts; oracle: no panic".into(),
         },
     }
 }
